@@ -111,6 +111,32 @@ def oracle_pair(text, text2, drop_dlm, cache=None):
     return None
 
 
+_DISK = {}
+
+
+def disk_canon(text, engine, drop_dlm):
+    """the text stored in a file (bytes as they are: LF / CRLF / mixed line ends) and read by path"""
+    import tempfile
+    if "dir" not in _DISK:
+        base = os.path.join(fw.ROOT, ".scratch")
+        os.makedirs(base, exist_ok=True)
+        _DISK["dir"] = tempfile.mkdtemp(prefix="c09-", dir=base)
+    path = os.path.join(_DISK["dir"], "t.las")
+    with open(path, "w", encoding="utf-8", newline="") as f:
+        f.write(text)
+    import lasio
+    try:
+        las = lasio.read(path, engine=engine, encoding="utf-8")
+        h = dd.canon_header(las)
+        return ["ok", strip_dlm(h) if drop_dlm else h, dd.canon_curves(las)]
+    except IndexError as e:
+        return ["err", "IndexError"]
+    except ValueError as e:
+        return ["err", "ReshapeError" if "Cannot reshape" in str(e) else "Other:ValueError"]
+    except Exception as e:
+        return ["err", "Other:" + type(e).__name__]
+
+
 def readable(text, cache):
     return any(canon(text, eng, cache)[0][0] == "ok" for eng in ENGINES)
 
@@ -189,6 +215,14 @@ def gen_base(rng):
     if r < 0.7:
         return delimited_doc(rng)
     secs = ld.gen_doc(rng, dlm="" if rng.random() < 0.8 else None)
+    if rng.random() < 0.3:
+        # the same line text in sections of different kinds (how a line is split depends on the section it stands in)
+        twin = rng.choice(["LOC .   BLOCK 7: NORTH FLANK : LOCATION", "TIME . 12:30:15 : logging time: start", "RUN . 1 : a: b :c", "Q.U  v : d"])
+        for sct in secs:
+            if sct["kind"] in ("W", "P", "X") and rng.random() < 0.8:
+                body = list(sct["body"])
+                body.insert(rng.randint(0, len(body)), (twin, "item", None))
+                sct["body"] = body
     text = ld.render(secs, rng.choice(["\n", "\n", "\r\n"]), rng.random() < 0.8)
     return text, {"kind": "header"}
 
@@ -415,6 +449,16 @@ def check_case(run, pend, base, ts, texts, tags, cache, in_domain=True, model=Tr
     if bad is not None:
         eng, detail = bad
         run.fail("not-invariant", case, {"engine": eng, "difference": detail, "transformed": final})
+    elif run.rng.random() < 0.25 and "\r" not in final.replace("\r\n", "") and final.isascii():
+        # the transformed text as a FILE (its line ends as they are, LF and CRLF possibly mixed) read by path: same result
+        eng = run.rng.choice(ENGINES)
+        a, _ = canon(base, eng, cache, drop)
+        if a[0] == "ok":
+            b = disk_canon(final, eng, drop)
+            run.dist["disk-read"] += 1
+            if a[:2] + [a[2]] != b:
+                run.fail("not-invariant-on-disk", case, {"engine": eng, "difference": first_difference(a, b) if b[0] == "ok" else b,
+                                                         "transformed": final})
     # correspondence 2: the whole-file model on the transformed text (and on the base, once per base)
     if model and run.model is not None:
         for eng in ENGINES:
@@ -444,6 +488,15 @@ def run_base(run, pend, base, info, tags, n_cases, max_steps=6, in_domain=True, 
 
 
 def run(run):
+    try:
+        _run(run)
+    finally:
+        if "dir" in _DISK:
+            import shutil
+            shutil.rmtree(_DISK.pop("dir"), ignore_errors=True)
+
+
+def _run(run):
     rng = run.rng
     pend = Pending(run)
     # (0) the inputs of the repaired defects
@@ -507,14 +560,21 @@ def run(run):
 
 
 # ---------------------------------------------------------------------------------------------- after a failure
-def violates(text, ts):
+def violates(text, ts, disk=False):
     final = tf.apply(text, ts)
-    return oracle_pair(text, final, any(t[0] == "redelim" for t in ts)) is not None
+    drop = any(t[0] == "redelim" for t in ts)
+    if disk:
+        for eng in ENGINES:
+            a, _ = canon(text, eng, None, drop)
+            if a[0] == "ok" and a[:2] + [a[2]] != disk_canon(final, eng, drop):
+                return True
+        return False
+    return oracle_pair(text, final, drop) is not None
 
 
 def shrink(run, f):
     c = f["case"]
-    if "text" not in c:
+    if "text" not in c or f["clause"] == "not-invariant-on-disk":
         return f
     text, ts = c["text"], list(c["ts"])
     # the single step that breaks the invariance
@@ -553,7 +613,7 @@ def search(run, disagreements):
 def replay(run, payload):
     c = payload.get("case") or {}
     if "text" in c and "ts" in c:
-        return not violates(c["text"], c["ts"])
+        return not violates(c["text"], c["ts"], disk=payload.get("clause") == "not-invariant-on-disk")
     return True
 
 
